@@ -1,21 +1,455 @@
 package an
 
 import (
+	"encoding/json"
 	"flag"
 	"fmt"
+	"os"
+	"path/filepath"
+	"sort"
+	"strconv"
+	"strings"
+	"sync"
+	"time"
 )
+
+// Finding is an entry of /verif/known_findings.json.
+type Finding struct {
+	Status    string `json:"status"` // "known" or "fixed"
+	Property  string `json:"property"`
+	Rule      string `json:"rule"`
+	Construct string `json:"construct"`
+	What      string `json:"what"`
+	Commit    string `json:"commit,omitempty"`
+}
+
+type replayFile struct {
+	Property string     `json:"property"`
+	Kind     string     `json:"kind"` // violated | undecided
+	Config   string     `json:"config"`
+	Tags     []string   `json:"tags"`
+	GOOS     string     `json:"goos"`
+	GOARCH   string     `json:"goarch"`
+	Repo     string     `json:"repo"`
+	Obl      Obligation `json:"obligation"`
+	Diagnosis string    `json:"diagnosis"`
+}
+
+func configsFor(tier string) []Config {
+	cs := []Config{{GOOS: "linux", GOARCH: "amd64"}, {GOOS: "linux", GOARCH: "amd64", Tags: []string{"verif"}}}
+	if tier == "thorough" {
+		for _, t := range [][2]string{{"linux", "386"}, {"darwin", "arm64"}, {"windows", "amd64"}} {
+			cs = append(cs, Config{GOOS: t[0], GOARCH: t[1]}, Config{GOOS: t[0], GOARCH: t[1], Tags: []string{"verif"}})
+		}
+	}
+	return cs
+}
+
+type configRun struct {
+	Cfg  Config
+	An   *Analysis
+	Err  error
+	Secs float64
+}
+
+func runConfigs(repo string, cfgs []Config) []*configRun {
+	out := make([]*configRun, len(cfgs))
+	var wg sync.WaitGroup
+	sem := make(chan struct{}, 4)
+	for i, c := range cfgs {
+		wg.Add(1)
+		go func(i int, c Config) {
+			defer wg.Done()
+			sem <- struct{}{}
+			defer func() { <-sem }()
+			t0 := time.Now()
+			cr := &configRun{Cfg: c}
+			func() {
+				defer func() {
+					if r := recover(); r != nil {
+						cr.Err = fmt.Errorf("analyser panic: %v", r)
+					}
+				}()
+				p, err := Load(repo, c)
+				if err != nil {
+					cr.Err = err
+					return
+				}
+				a := NewAnalysis(p)
+				a.RunAll()
+				cr.An = a
+			}()
+			cr.Secs = time.Since(t0).Seconds()
+			out[i] = cr
+		}(i, c)
+	}
+	wg.Wait()
+	return out
+}
 
 // Main is the entry point of the bipcheck command.
 func Main(args []string) int {
 	fs := flag.NewFlagSet("bipcheck", flag.ContinueOnError)
 	repo := fs.String("repo", "/repo", "repository to analyse")
+	prop := fs.String("property", "", "property id (C01..C17) or 'all'")
+	tier := fs.String("tier", "quick", "quick | thorough")
+	outDir := fs.String("out", "/verif/evidence", "evidence directory ('' = do not write)")
+	known := fs.String("known", "/verif/known_findings.json", "known-findings file")
+	replay := fs.String("replay", "", "replay file to re-run")
 	debug := fs.String("debug", "", "debug: dump evaluation of the named function")
+	list := fs.Bool("list", false, "with -property: list every obligation")
 	if err := fs.Parse(args); err != nil {
 		return 2
 	}
 	if *debug != "" {
 		return debugDump(*repo, *debug)
 	}
-	fmt.Println("usage: bipcheck -property <id> -tier quick|thorough")
-	return 2
+	if *replay != "" {
+		return doReplay(*replay)
+	}
+	if *prop == "" {
+		fmt.Println("usage: bipcheck -property <id>|all [-tier quick|thorough] [-repo dir] | -replay file")
+		return 2
+	}
+	if t := os.Getenv("VERIF_TIER"); t != "" && !flagSet(fs, "tier") {
+		*tier = t
+	}
+	if *tier != "quick" && *tier != "thorough" {
+		fmt.Println("tier must be quick or thorough")
+		return 2
+	}
+	seed := int64(0)
+	if s := os.Getenv("VERIF_SEED"); s != "" {
+		seed, _ = strconv.ParseInt(s, 10, 64)
+	}
+	var props []*Property
+	if *prop == "all" {
+		for i := range Properties {
+			props = append(props, &Properties[i])
+		}
+	} else {
+		for _, id := range strings.Split(*prop, ",") {
+			p := PropertyByID(id)
+			if p == nil {
+				fmt.Printf("unknown property %s\n", id)
+				return 2
+			}
+			props = append(props, p)
+		}
+	}
+	t0 := time.Now()
+	runs := runConfigs(*repo, configsFor(*tier))
+	findings := loadFindings(*known)
+	rc := 0
+	for _, p := range props {
+		if decide(p, runs, findings, *tier, seed, *repo, *outDir, time.Since(t0).Seconds(), *list) != 0 {
+			rc = 1
+		}
+	}
+	return rc
+}
+
+func flagSet(fs *flag.FlagSet, name string) bool {
+	set := false
+	fs.Visit(func(f *flag.Flag) {
+		if f.Name == name {
+			set = true
+		}
+	})
+	return set
+}
+
+func loadFindings(path string) []Finding {
+	b, err := os.ReadFile(path)
+	if err != nil {
+		return nil
+	}
+	var f struct {
+		Findings []Finding `json:"findings"`
+	}
+	if json.Unmarshal(b, &f) != nil {
+		return nil
+	}
+	return f.Findings
+}
+
+// decide evaluates one property over all configuration runs; prints verdict lines; writes evidence.
+func decide(p *Property, runs []*configRun, findings []Finding, tier string, seed int64, repo, outDir string, wall float64, list bool) int {
+	ruleSet := map[string]bool{}
+	for _, r := range p.Rules {
+		ruleSet[r] = true
+	}
+	var all []Obligation
+	counts := map[string]int{}
+	var cfgNames []string
+	var unanalysed []string
+	pkgs, files, funcs, blocks, instrs, contexts := 0, 0, 0, 0, 0, 0
+	for _, cr := range runs {
+		cfgNames = append(cfgNames, cr.Cfg.String())
+		if cr.Err != nil {
+			all = append(all, Obligation{Rule: "LOAD", Key: "load/" + cr.Cfg.String(), Pos: "-", Outcome: Undecided, Detail: cr.Err.Error(), Config: cr.Cfg.String()})
+			continue
+		}
+		a := cr.An
+		pkgs += len(a.P.Pkgs)
+		files += len(a.P.Files)
+		funcs += a.P.NumFuncs
+		blocks += a.P.NumBlocks
+		instrs += a.P.NumInstrs
+		contexts += a.Contexts
+		for _, u := range a.P.Unanalysed {
+			unanalysed = append(unanalysed, cr.Cfg.String()+": "+u)
+		}
+		n := 0
+		for _, o := range a.R.Obls {
+			if ruleSet[o.Rule] || strings.HasPrefix(o.Rule, "F3") && ruleSet["F3"] && ruleSet[o.Rule] {
+				o.Config = cr.Cfg.String()
+				all = append(all, o)
+				n++
+			}
+		}
+		// floors
+		for k, min := range p.Floors {
+			got := a.R.Counts[k]
+			if got < min {
+				all = append(all, Obligation{Rule: "FLOOR", Key: "floor/" + k, Pos: "-", Outcome: Undecided, Config: cr.Cfg.String(),
+					Detail: fmt.Sprintf("rule instance count %s = %d is below the floor %d confirmed by hand: the rule would pass vacuously", k, got, min)})
+			} else {
+				all = append(all, Obligation{Rule: "FLOOR", Key: "floor/" + k, Pos: "-", Outcome: Discharged, Config: cr.Cfg.String(), Detail: fmt.Sprintf("%s = %d ≥ %d", k, got, min)})
+			}
+			if counts[k] == 0 || got < counts[k] {
+				counts[k] = got
+			}
+		}
+		for k, v := range a.R.Counts {
+			if _, isFloor := p.Floors[k]; !isFloor {
+				if strings.HasPrefix(k, strings.Split(k, ".")[0]) && ruleSet[strings.Split(k, ".")[0]] {
+					if counts[k] == 0 || v < counts[k] {
+						counts[k] = v
+					}
+				}
+			}
+		}
+		if n == 0 {
+			all = append(all, Obligation{Rule: "FLOOR", Key: "floor/obligations", Pos: "-", Outcome: Undecided, Config: cr.Cfg.String(), Detail: "no obligation was generated for this property"})
+		}
+		// unanalysed files fail every check
+		for _, u := range a.P.Unanalysed {
+			all = append(all, Obligation{Rule: "LOAD", Key: "unanalysed/" + u, Pos: u, Outcome: Undecided, Config: cr.Cfg.String(), Detail: "source file is not part of any analysed configuration"})
+		}
+	}
+	// merge identical obligations across configurations
+	type mk struct{ rule, key, detail, pos string; out Outcome }
+	merged := map[mk]*Obligation{}
+	var order []mk
+	cfgOf := map[mk][]string{}
+	ctxOf := map[mk][]string{}
+	for _, o := range all {
+		k := mk{o.Rule, o.Key, o.Detail, o.Pos, o.Outcome}
+		if _, ok := merged[k]; !ok {
+			oc := o
+			merged[k] = &oc
+			order = append(order, k)
+		}
+		if !contains(cfgOf[k], o.Config) {
+			cfgOf[k] = append(cfgOf[k], o.Config)
+		}
+		if o.Ctx != "" && !contains(ctxOf[k], o.Ctx) {
+			ctxOf[k] = append(ctxOf[k], o.Ctx)
+		}
+	}
+	var obls []Obligation
+	for _, k := range order {
+		o := *merged[k]
+		if len(cfgOf[k]) == len(runs) {
+			o.Config = "all"
+		} else {
+			o.Config = strings.Join(cfgOf[k], " | ")
+		}
+		c := ctxOf[k]
+		if len(c) > 5 {
+			o.Ctx = fmt.Sprintf("%s … (%d contexts)", strings.Join(c[:3], "; "), len(c))
+		} else {
+			o.Ctx = strings.Join(c, "; ")
+		}
+		obls = append(obls, o)
+	}
+	SortObligations(obls)
+	total, discharged := len(obls), 0
+	var failing []Obligation
+	for _, o := range obls {
+		if o.Outcome == Discharged {
+			discharged++
+		} else {
+			failing = append(failing, o)
+		}
+	}
+	// known findings
+	var violations []Obligation
+	knownHit := 0
+	for _, o := range failing {
+		matched := false
+		for _, f := range findings {
+			if f.Status == "known" && f.Property == p.ID && f.Rule == o.Rule && f.Construct == o.Key {
+				fmt.Printf("KNOWN-FINDING: property=%s %s\n", p.ID, f.What)
+				matched = true
+				knownHit++
+				break
+			}
+		}
+		if !matched {
+			violations = append(violations, o)
+		}
+	}
+	if list {
+		for _, o := range obls {
+			fmt.Printf("  [%s] %-4s %-55s %s %s\n      %s\n", o.Outcome, o.Rule, o.Key, o.Pos, o.Ctx, o.Detail)
+		}
+	}
+	// replay files + VIOLATION lines
+	rc := 0
+	if outDir != "" {
+		os.MkdirAll(filepath.Join(outDir, "replay"), 0o755)
+		old, _ := filepath.Glob(filepath.Join(outDir, "replay", p.ID+"-*.json"))
+		for _, f := range old {
+			os.Remove(f)
+		}
+	}
+	for i, o := range violations {
+		rc = 1
+		path := filepath.Join(outDir, "replay", fmt.Sprintf("%s-%d.json", p.ID, i+1))
+		if outDir == "" {
+			path = "-"
+		} else {
+			cfg := configsFor(tier)[0]
+			for _, cr := range runs {
+				if strings.HasPrefix(o.Config, cr.Cfg.String()) {
+					cfg = cr.Cfg
+				}
+			}
+			rf := replayFile{Property: p.ID, Kind: string(o.Outcome), Config: o.Config, Tags: cfg.Tags, GOOS: cfg.GOOS, GOARCH: cfg.GOARCH, Repo: repo, Obl: o,
+				Diagnosis: fmt.Sprintf("rule %s on %s at %s: %s", o.Rule, o.Key, o.Pos, o.Detail)}
+			b, _ := json.MarshalIndent(rf, "", " ")
+			os.WriteFile(path, b, 0o644)
+		}
+		fmt.Printf("VIOLATION property=%s replay=%s\n", p.ID, path)
+		fmt.Printf("  %s [%s] %s at %s (%s) %s\n    %s\n", o.Outcome, o.Rule, o.Key, o.Pos, o.Config, o.Ctx, o.Detail)
+	}
+	status := "HELD"
+	if rc != 0 {
+		status = "VIOLATED"
+	}
+	fmt.Printf("%s %s (%s): %d obligations, %d discharged, %d failing (%d known) over %d configurations [%s]\n", p.ID, status, tier, total, discharged, len(failing), knownHit, len(runs), strings.Join(p.Rules, " "))
+
+	if outDir != "" {
+		writeEvidence(p, tier, seed, outDir, obls, total, discharged, len(violations), knownHit, counts, cfgNames, unanalysed, wall,
+			map[string]int{"packages": pkgs, "files": files, "functions": funcs, "blocks": blocks, "instructions": instrs, "contexts": contexts})
+	}
+	return rc
+}
+
+func contains(s []string, x string) bool {
+	for _, y := range s {
+		if y == x {
+			return true
+		}
+	}
+	return false
+}
+
+func writeEvidence(p *Property, tier string, seed int64, outDir string, obls []Obligation, total, discharged, violations, known int, counts map[string]int, cfgs, unanalysed []string, wall float64, analysed map[string]int) {
+	// samples: every failing obligation, plus up to 40 discharged ones spread over the rules
+	var samples []Obligation
+	perRule := map[string]int{}
+	for _, o := range obls {
+		if o.Outcome != Discharged {
+			samples = append(samples, o)
+			continue
+		}
+		if perRule[o.Rule] < 6 {
+			perRule[o.Rule]++
+			samples = append(samples, o)
+		}
+	}
+	ruleCounts := map[string]int{}
+	for _, o := range obls {
+		ruleCounts[o.Rule]++
+	}
+	level := p.Level
+	cov := map[string]any{
+		"obligations":       total,
+		"discharged":        discharged,
+		"checker_cmd":       fmt.Sprintf("/verif/bin/bipcheck -property %s -tier %s", p.ID, tier),
+		"trusted_base":      p.Trusted,
+		"explanation":       p.Explain,
+		"samples":           samples,
+		"rule":              "one obligation per (rule, construct, outcome, detail); identical obligations from different contexts/configurations are merged and their contexts listed",
+		"rules":             p.Rules,
+		"obligations_by_rule": ruleCounts,
+		"instance_counts":   counts,
+		"configurations":    cfgs,
+		"analysed":          analysed,
+		"unanalysed_files":  unanalysed,
+		"known_findings_matched": known,
+		"technique":         "static analysis: go/packages + go/types + go/ssa; gate reach sets (exact integer sets), abstract interpretation with loop summarisation over a bit-layout domain, effect index, dominance/def-use rules; nothing is executed",
+	}
+	if p.Exhaustive {
+		cov["exhaustive"] = true
+	}
+	ev := map[string]any{
+		"property_id": p.ID,
+		"tier":        tier,
+		"seed":        seed,
+		"level":       level,
+		"coverage":    cov,
+		"assumptions": append(append([]string{}, p.Trusted...), p.Assume...),
+		"wall_s":      wall,
+		"violations":  violations,
+	}
+	b, _ := json.MarshalIndent(ev, "", " ")
+	os.MkdirAll(outDir, 0o755)
+	os.WriteFile(filepath.Join(outDir, p.ID+".json"), b, 0o644)
+}
+
+func doReplay(path string) int {
+	b, err := os.ReadFile(path)
+	if err != nil {
+		fmt.Println(err)
+		return 2
+	}
+	var rf replayFile
+	if err := json.Unmarshal(b, &rf); err != nil {
+		fmt.Println(err)
+		return 2
+	}
+	fmt.Printf("replaying %s: property %s, rule %s, construct %s\nrecorded: %s\n", path, rf.Property, rf.Obl.Rule, rf.Obl.Key, rf.Diagnosis)
+	cfg := Config{GOOS: rf.GOOS, GOARCH: rf.GOARCH, Tags: rf.Tags}
+	if cfg.GOOS == "" {
+		cfg = Config{GOOS: "linux", GOARCH: "amd64"}
+	}
+	runs := runConfigs(rf.Repo, []Config{cfg})
+	if runs[0].Err != nil {
+		fmt.Println("load:", runs[0].Err)
+		return 1
+	}
+	found := 0
+	var hits []Obligation
+	for _, o := range runs[0].An.R.Obls {
+		if o.Rule == rf.Obl.Rule && o.Key == rf.Obl.Key {
+			hits = append(hits, o)
+		}
+	}
+	sort.SliceStable(hits, func(i, j int) bool { return hits[i].Outcome > hits[j].Outcome })
+	for _, o := range Collapse(hits) {
+		fmt.Printf("now: [%s] %s %s at %s %s\n     %s\n", o.Outcome, o.Rule, o.Key, o.Pos, o.Ctx, o.Detail)
+		if o.Outcome != Discharged {
+			found++
+		}
+	}
+	if found > 0 {
+		fmt.Printf("VIOLATION property=%s replay=%s\n", rf.Property, path)
+		return 1
+	}
+	fmt.Println("the obligation is discharged on the current tree")
+	return 0
 }
